@@ -18,9 +18,15 @@ Open Scope Q_scope.
 
 (* ---------- spectrum ---------- *)
 (* one carrier: frequency, baud rate and slot width (dB of GHz), per-channel offset delta_pdb_per_channel,
-   total power pch (dBm) and the three shares signal/ase/nli of DESIGN C01 *)
-Record chan := mkC { cf : Q; cbaud : Q; cslot : Q; coff : Q; cp : Q; cs : Q; ca : Q; cn : Q }.
-Definition set_p (c : chan) (p : Q) : chan := mkC (cf c) (cbaud c) (cslot c) (coff c) p (cs c) (ca c) (cn c).
+   total power pch (dBm), the three shares signal/ase/nli of DESIGN C01, and the accumulated PMD and PDL, carried
+   squared (pmd^2 [s^2], pdl^2 [dB^2]) so that the quadrature sum  sqrt(x^2 + y^2)  stays in Q *)
+Record chan := mkC { cf : Q; cbaud : Q; cslot : Q; coff : Q; cp : Q; cs : Q; ca : Q; cn : Q; cpmd2 : Q; cpdl2 : Q }.
+Definition set_p (c : chan) (p : Q) : chan :=
+  mkC (cf c) (cbaud c) (cslot c) (coff c) p (cs c) (ca c) (cn c) (cpmd2 c) (cpdl2 c).
+(* spectral_info.pmd = sqrt(pmd^2 + a^2) ; spectral_info.pdl = sqrt(pdl^2 + b^2) *)
+Definition add_pol (c : chan) (a b : Q) : chan :=
+  mkC (cf c) (cbaud c) (cslot c) (coff c) (cp c) (cs c) (ca c) (cn c) (cpmd2 c + a * a) (cpdl2 c + b * b).
+Definition add_pol3 (x : chan * (Q * Q)) : chan := add_pol (fst x) (fst (snd x)) (snd (snd x)).
 
 (* ---------- equalisation policies and their resolution ---------- *)
 Inductive policy := Power (t : Q) | Psd (d : Q) | Psw (d : Q).
@@ -45,8 +51,8 @@ Definition ptype_eqb (a b : ptype) : bool :=
 Inductive kv := Absent | Null | Val (q : Q).
 
 (* one entry of an impairment profile: frequency-range (None = lower-frequency is None: matches everything)
-   and the state of its 'roadm-maxloss' key *)
-Record band := mkBand { brange : option (Q * Q); bml : kv }.
+   and the state of its 'roadm-maxloss', 'roadm-pmd' and 'roadm-pdl' keys *)
+Record band := mkBand { brange : option (Q * Q); bml : kv; bpmd : kv; bpdl : kv }.
 Record profile := mkProf { pid : Z; ptyp : ptype; pbands : list band }.
 (* an internal path as recorded by set_roadm_paths *)
 Record rpath := mkPath { pfrom : Z; pto : Z; pbs : list band }.
@@ -101,14 +107,14 @@ Fixpoint prof_set (l : list profile) (p : profile) : list profile :=
   end.
 Definition prof_dict (l : list profile) : list profile := fold_left prof_set l [].
 
-(* roadm_global_impairment: frequency-range None/None, no 'roadm-maxloss' key *)
-Definition global_band : band := mkBand None Absent.
+(* roadm_global_impairment: frequency-range None/None, no 'roadm-maxloss' key, 'roadm-pmd' / 'roadm-pdl' = params.pmd / params.pdl *)
+Definition global_band (pmd pdl : Q) : band := mkBand None Absent (Val pmd) (Val pdl).
 
-Definition select_bands (profs : list profile) (pt : ptype) (iid : option Z) : res (list band) :=
+Definition select_bands (gb : band) (profs : list profile) (pt : ptype) (iid : option Z) : res (list band) :=
   match iid with
   | None => match find (fun p => ptype_eqb (ptyp p) pt) profs with
             | Some p => Ok (pbands p)
-            | None => Ok [global_band]
+            | None => Ok [gb]
             end
   | Some i => match find (fun p => (pid p =? i)%Z) profs with
               | Some p => Ok (pbands p)
@@ -118,11 +124,11 @@ Definition select_bands (profs : list profile) (pt : ptype) (iid : option Z) : r
 
 (* one set_roadm_paths(from, to, path_type, impairment_id) call *)
 Record pcall := mkCall { c_from : Z; c_to : Z; c_pt : ptype; c_id : option Z }.
-Fixpoint set_paths (profs : list profile) (calls : list pcall) (acc : list rpath) : res (list rpath) :=
+Fixpoint set_paths (gb : band) (profs : list profile) (calls : list pcall) (acc : list rpath) : res (list rpath) :=
   match calls with
   | [] => Ok acc
-  | c :: t => let* bs := select_bands profs (c_pt c) (c_id c) in
-              set_paths profs t (acc ++ [mkPath (c_from c) (c_to c) bs])
+  | c :: t => let* bs := select_bands gb profs (c_pt c) (c_id c) in
+              set_paths gb profs t (acc ++ [mkPath (c_from c) (c_to c) bs])
   end.
 
 Fixpoint get_path (ps : list rpath) (from to : Z) : res (list band) :=
@@ -146,10 +152,24 @@ Fixpoint lookup1 (bs : list band) (f : Q) : option Q :=
 Definition lookup_all (bs : list band) (fs : list Q) : list Q :=
   flat_map (fun f => match lookup1 bs f with Some q => [q] | None => [] end) fs.
 
-(* numpy semantics of  pch *= 1/db2lin(maxloss) : None -> TypeError, length 1 broadcasts, other lengths must agree *)
+(* get_impairment for a key whose default is None ('roadm-pmd', 'roadm-pdl'): an entry where the key is missing or
+   null is skipped and the search goes on *)
+Definition kv_val (k : kv) : option Q := match k with Val q => Some q | _ => None end.
+Fixpoint lookup1k (sel : band -> kv) (bs : list band) (f : Q) : option Q :=
+  match bs with
+  | [] => None
+  | b :: t => if in_band b f then match kv_val (sel b) with Some q => Some q | None => lookup1k sel t f end
+              else lookup1k sel t f
+  end.
+Definition lookup_allk (sel : band -> kv) (bs : list band) (fs : list Q) : list Q :=
+  flat_map (fun f => match lookup1k sel bs f with Some q => [q] | None => [] end) fs.
+
+(* numpy semantics of an elementwise operation between the n carriers and the looked-up values
+   ( pch *= 1/db2lin(maxloss) ,  pmd**2 + pmd_impairment**2 ): None -> TypeError, length 1 broadcasts, other lengths
+   must agree *)
 Definition broadcast (raw : list Q) (n : nat) : res (list Q) :=
   match raw with
-  | [] => Err "TypeError:no roadm-maxloss for any channel"
+  | [] => Err "TypeError:no impairment value for any channel"
   | [q] => Ok (repeat q n)
   | _ => if Nat.eqb (length raw) n then Ok raw else Err "ValueError:operands could not be broadcast"
   end.
@@ -182,11 +202,12 @@ Definition path_maxloss (r : roadm) (from deg : Z) (l : list chan) : res (list Q
   let raw := lookup_all bs (map cf l) in
   let* mls := broadcast raw (length l) in
   match raw with
-  | [] => Err "TypeError:no roadm-maxloss for any channel"
+  | [] => Err "TypeError:no impairment value for any channel"
   | h :: t => Ok (mls, qmaxl h t)                      (* max(roadm_maxloss_db) *)
   end.
 
-Definition propagate (r : roadm) (deg from : Z) (l : list chan) : res pout :=
+(* the power part of propagate (elements.py:589-635) *)
+Definition propagate_power (r : roadm) (deg from : Z) (l : list chan) : res pout :=
   let* (mls, mx) := path_maxloss r from deg l in
   let* rt := ref_target r deg in
   match zfind from (refin r) with
@@ -200,6 +221,19 @@ Definition propagate (r : roadm) (deg from : Z) (l : list chan) : res pout :=
       | _, _ => Err "TypeError:no equalisation target"
       end
   end.
+
+(* the PMD / PDL part (elements.py:637-643): per-carrier 'roadm-pmd' then 'roadm-pdl' of the internal path *)
+Definition path_pol (r : roadm) (from deg : Z) (l : list chan) : res (list Q * list Q) :=
+  let* bs := get_path (rpaths r) from deg in
+  let* pm := broadcast (lookup_allk bpmd bs (map cf l)) (length l) in
+  let* pd := broadcast (lookup_allk bpdl bs (map cf l)) (length l) in
+  Ok (pm, pd).
+
+(* Roadm.propagate: powers first; the PMD / PDL update comes last and may still raise *)
+Definition propagate (r : roadm) (deg from : Z) (l : list chan) : res pout :=
+  let* o := propagate_power r deg from l in
+  let* (pm, pd) := path_pol r from deg l in
+  Ok (mkOut (map add_pol3 (combine (o_chans o) (combine pm pd))) (o_loss o) (o_ref_out o) (o_ref_loss o)).
 
 (* ---------- design step: set_roadm_per_degree_targets (network.py:1296-1315) ---------- *)
 (* the code tests the node-level values with `is not None` (F12 fixed: a 0 dBm target is a target). *)
